@@ -518,6 +518,40 @@ class EngineSystem:
                   "open": [list(k) for k in self.rig.open_gates()],
                   "done": self.outcome is not None, "stream_done": self.stream_done,
                   "consumers2": self.consumers2, "consumers2_done": self.consumers2_done})
+        self.inspect()
+
+    # ---- the public inspection path of a live handler (C11): ctx.to_dict() / ctx.running_steps()
+    def inspect(self):
+        """One record per quiescence point: what the handler's context says about the run (to_dict read back into a state,
+        running_steps) next to the same rendering of the live runner state.  The SAME context object is inspected every
+        time, as a caller polling a handler would."""
+        if not self.observe_c11 or self.handler is None:
+            return
+        from workflows.context.context_types import SerializedContext
+        from workflows.context.serializers import JsonSerializer
+        from workflows.runtime.types.internal_state import BrokerState
+        runner = next(iter(_RUNNERS.values()), None)
+        if runner is None:
+            return
+        ser = JsonSerializer()
+
+        def via_dict(d):
+            return p_state(BrokerState.from_serialized(SerializedContext.from_dict_auto(d), self.wf, ser))
+        rec = {"e": "inspect", "err": "", "said": {}, "live": {}, "steps_said": [], "steps_live": []}
+        try:
+            rec["live"] = via_dict(json.loads(json.dumps(runner.state.to_serialized(ser).model_dump(mode="python"))))
+            rec["steps_live"] = sorted(n for n, w in runner.state.workers.items() if w.in_progress)
+            rec["said"] = via_dict(json.loads(json.dumps(self.handler.ctx.to_dict())))
+            co = self.handler.ctx.running_steps()
+            try:
+                co.send(None)
+                co.close()
+                rec["err"] = "running_steps suspended"
+            except StopIteration as st:
+                rec["steps_said"] = sorted(st.value)
+        except Exception as ex:  # noqa: BLE001
+            rec["err"] = type(ex).__name__ + ": " + str(ex)[:160]
+        self.log(rec)
 
     # ---- snapshots (C12/C31)
     def snapshot(self):
